@@ -56,7 +56,7 @@ def build(I, n, hi):
     return c, model
 
 
-def h_set_get(I, n, hi):
+def h_set_get(I, n, hi, fixed_op=None):
     c, model = build(I, n, hi)
     q = I.int("query_tag", 1, hi)
     present = None
@@ -76,7 +76,7 @@ def h_set_get(I, n, hi):
         I.goal("missing")
     I.check(c.is_group(sp) == (None if present is None else False), "is_group differs from the model")
     # replace / delete
-    op = I.choice("op", 3)
+    op = I.choice("op", 3) if fixed_op is None else fixed_op
     nv = I.fstr("new_val", 1)
     before = content(c)
     if op == 0:
@@ -327,9 +327,10 @@ def cells(tier):
     vb = "symbolic printable strings of 0..1 chars"
     out = []
     for n in ((1, 2) if quick else (1, 2, 3)):
-        out.append(Cell(f"set-get/{n}", (lambda I, n=n: h_set_get(I, n, hi)), dict(entries=n, tags=tb, values=vb,
-                        then="contains / get / default / replace / __setitem__ / delete with a symbolic tag"),
-                        goals=["found", "missing"] + (["duplicate-refused"] if n > 1 else []), budget_s=2400))
+        for op, oname in ((None, "any"),) if n == 1 else ((0, "replace"), (1, "setitem"), (2, "delete")):
+            out.append(Cell(f"set-get/{n}/{oname}", (lambda I, n=n, op=op: h_set_get(I, n, hi, op)), dict(entries=n, tags=tb, values=vb,
+                            then="contains / get / default, then " + ("replace / __setitem__ / delete" if op is None else oname) + " with a symbolic tag"),
+                            goals=["found", "missing"] + (["duplicate-refused"] if n > 1 else []), budget_s=2400))
     out.append(Cell("tag-spelling", h_tag_spelling, dict(bad_tags="every 1-char printable string, alone or after the digit 1", enum=[f.name for f in FTAGS],
                                                          values="str / int (symbolic) / float / enum"),
                     goals=["accepted", "refused", "enum", "typed-value"]))
